@@ -412,5 +412,44 @@ def rule_i7(repo):
                       '%y. (%P. %w. P c) (%z. f z y) normalises to %y. %w. f w y')
 
 
+def rule_i8(repo):
+    """A substitution first completes its table of type instantiations (match_incr adds to it) and then
+    applies it.  Applying the table before the last addition uses an incomplete table: the schematic type variables
+    that are inferred from the instantiating terms stay in the result, which is then ill-typed - and the same call
+    gives another result the second time, because the table was filled meanwhile."""
+    res = RuleResult('C03.I8', 'a table of type instantiations is applied only after the last addition to it', floor=2)
+    for rel, qual in (('kernel/term.py', 'Term.subst'), ('kernel/thm.py', 'Thm.substitution')):
+        f = repo.func(rel, qual)
+        cfg = cfg_of(f.node)
+        adds, uses = [], []
+        for n in cfg.nodes:
+            if n.ast is None or n.kind not in ('stmt', 'test', 'return'):
+                continue
+            for c in ast.walk(n.ast) if not isinstance(n.ast, (ast.For, ast.If, ast.Try, ast.While, ast.FunctionDef)) else []:
+                if isinstance(c, ast.Call) and call_attr(c) == 'match_incr' and len(c.args) == 2:
+                    adds.append((n, src(c.args[1], 40)))
+                if isinstance(c, ast.Call) and call_attr(c) in ('subst_type', 'subst', 'subst_norm') and c.args:
+                    uses.append((n, src(c.args[0], 40), c))
+        need(adds, '%s: no addition to a type instantiation found' % qual)
+        tables = {t for _n, t in adds}
+        bad = []
+        checked = 0
+        for n, t, c in uses:
+            # the table itself, or an instantiation that carries it (inst / inst.tyinst)
+            hit = [tb for tb in tables if t == tb or tb.startswith(t + '.')]
+            if not hit:
+                continue
+            checked += 1
+            reach = cfg.reach_from([b for b, _l in n.succ])
+            later = [a for a, tb in adds if tb in hit and a.id in reach and a is not n]
+            if later:
+                bad.append('line %d applies `%s` (`%s`), line %d still adds to it' % (n.lineno, t, src(c, 40), later[0].lineno))
+        need(checked, '%s: no application of the completed table found' % qual)
+        res.add('%s :: %s :: table-complete-before-use' % (rel, qual), not bad,
+                '%d application(s), none followed by an addition' % checked if not bad else '; '.join(bad) +
+                ' -- (?x = ?y :: ?\'a).subst(x = 1, y = 2) keeps equals at ?\'a => ?\'a => bool over two natural numbers', f.loc)
+    return res
+
+
 def rules(repo):
-    return [rule_i1(repo), rule_i2(repo), rule_i3(repo), rule_i4(repo), rule_i5(repo), rule_i6(repo), rule_i7(repo)]
+    return [rule_i1(repo), rule_i2(repo), rule_i3(repo), rule_i4(repo), rule_i5(repo), rule_i6(repo), rule_i7(repo), rule_i8(repo)]
